@@ -77,20 +77,29 @@ func emitUserTok(env *runEnv, ek, sk, term, tok string) {
 	}()
 	env.emit("usertok", ek, sk, strconv.FormatInt(now, 10), term, hx([]byte(tok)), obs)
 	// the HTTP endpoint on the same token
-	for _, m := range []struct{ method, param string }{{"GET", "tok"}, {"POST", "tok"}, {"GET", "none"}, {"GET", "empty"}, {"HEAD", "tok"}} {
+	for _, m := range []struct{ method, param string }{{"GET", "tok"}, {"POST", "tok"}, {"GET", "none"}, {"GET", "empty"}, {"HEAD", "tok"},
+		{"POST", "form"}, {"PUT", "form"}} {
 		if m.method != "GET" || m.param != "tok" {
 			if len(tok)%7 != 0 { // thin out the status matrix
 				continue
 			}
 		}
 		u := "/tokeninfo"
+		var rd io.Reader
 		switch m.param {
 		case "tok":
 			u += "?access_token=" + url.QueryEscape(tok)
 		case "empty":
 			u += "?access_token="
+		case "form":
+			// the token in a form body (and in the query as well): still not a GET
+			u += "?access_token=" + url.QueryEscape(tok)
+			rd = strings.NewReader("access_token=" + url.QueryEscape(tok))
 		}
-		req := httptest.NewRequest(m.method, u, nil)
+		req := httptest.NewRequest(m.method, u, rd)
+		if m.param == "form" {
+			req.Header.Set("Content-Type", "application/x-www-form-urlencoded")
+		}
 		rec := httptest.NewRecorder()
 		web.TokenInfo(rec, req)
 		body := rec.Body.String()
@@ -114,6 +123,9 @@ func emitUserTok(env *runEnv, ek, sk, term, tok string) {
 		p := m.param
 		if m.param == "tok" && tok == "" {
 			p = "empty"
+		}
+		if p == "form" {
+			p = "tok"
 		}
 		env.emit("tokeninfo", m.method, p, ek, sk, strconv.FormatInt(now, 10), term, strconv.Itoa(rec.Code)+":"+hx([]byte(sub))+":"+disclosed)
 	}
@@ -198,6 +210,12 @@ func streamC15(env *runEnv) {
 			// opacity: neither the name nor its base64 forms occur in the token text
 			leaks := strings.Contains(tok, name) || strings.Contains(tok, base64.RawURLEncoding.EncodeToString([]byte(name))) ||
 				strings.Contains(tok, base64.StdEncoding.EncodeToString([]byte(name)))
+			for _, seg := range strings.Split(tok, ".") {
+				// the segments are base64url text: what they decode to must not show the name either
+				if raw, e := base64.RawURLEncoding.DecodeString(seg); e == nil && strings.Contains(string(raw), name) {
+					leaks = true
+				}
+			}
 			if leaks && len(name) > 3 {
 				env.emit("usertok", mint[0], mint[1], "0", "LEAK", hx([]byte(tok)), "LEAK")
 			}
